@@ -11,9 +11,18 @@ Driver commands for the filter operators (C07):
   (tag path) and `regex_opt not_regex_opt` (variable path): the driver has no regex engine, the
   two bits are the engine's verdict on this `(pattern, haystack)` pair and instantiate the model's
   `rx` parameter;
-* `(filter is_null <v>)`, `(filter is_not_null <v>)`.
+* `(filter is_null <v>)`, `(filter is_not_null <v>)`;
+* `(tagged-stream <op> <pair>…)`: a whole stream of contexts through ONE tag-path filter stage
+  (`Filter.taggedStreamAnswer`); `<pair>` is `(p <left> <right|none>)` for the plain binary
+  operators and `(p <left> <right|none> <compiles> <matches>)` for `regex_slow not_regex_slow`;
+  `none` is `TaggedValue::NonexistentOptional`; the bits of all pairs together instantiate ONE
+  `rx` for the stream (`rxOfTable`);
+* `(static-stream <op> <right> <left>…)` for the plain binary operators and
+  `(static-stream <op> <right> <compiles> (h <left> <matches>)…)` for `regex_opt not_regex_opt`:
+  a stream of left values against one query-variable value through ONE variable-path stage
+  (`Filter.staticStreamAnswer`).
 
-Answers: `1`, `0`, `panic`.
+Answers: `1`, `0`, `panic`; streams: `(bits b…)` (one bit per context, 1 = survived) or `panic`.
 -/
 namespace TF.Driver
 open TF Sexp Filter
@@ -64,7 +73,106 @@ iff `isMatch` (only one pattern and one haystack occur in a request). -/
 def rxOfBits (compiles isMatch : Bool) : RegexEngine :=
   fun _ => if compiles then some (fun _ => isMatch) else none
 
+/-- One observation of the regex engine carried by a stream request. -/
+structure RxEntry where
+  pattern : Bytes
+  haystack : Bytes
+  compiles : Bool
+  isMatch : Bool
+
+/-- The engine's verdicts on the `(pattern, haystack)` pairs of one stream as ONE `rx` for the
+whole stream: a pattern compiles iff its (first) entry says so, and then matches a haystack iff
+the entry of that `(pattern, haystack)` says so.  (The harness takes the bits from the regex
+crate, a function of `(pattern, haystack)`, so entries never contradict each other.) -/
+def rxOfTable (t : List RxEntry) : RegexEngine := fun p =>
+  match t.find? (fun e => e.pattern == p) with
+  | none => none
+  | some e =>
+    if e.compiles then
+      some fun h =>
+        match t.find? (fun e => e.pattern == p && e.haystack == h) with
+        | some e => e.isMatch
+        | none => false
+    else none
+
+def renderBits : Outcome (List Bool) → String
+  | .panic => "panic"
+  | .ok bs => "(bits" ++ String.join (bs.map fun b => if b then " 1" else " 0") ++ ")"
+
+def rightOperand : Sexp → Option (Option Value)
+  | .atom "none" => some none
+  | r => some <$> toValue r
+
+/-- `(p <l> <r|none>)` or `(p <l> <r|none> <c> <m>)` (`withBits`). -/
+def streamPair (withBits : Bool) : Sexp → Option (StreamPair × List RxEntry)
+  | .list [.atom "p", l, r] =>
+    if withBits then none else do
+      let x ← toValue l
+      let y ← rightOperand r
+      pure ((x, y), [])
+  | .list [.atom "p", l, r, c, m] =>
+    if !withBits then none else do
+      let x ← toValue l
+      let y ← rightOperand r
+      let compiles ← bit c
+      let isMatch ← bit m
+      match x, y with
+      | .string h, some (.string pat) => pure ((x, y), [⟨pat, h, compiles, isMatch⟩])
+      | _, _ => pure ((x, y), [])
+  | _ => none
+
+def streamPairs (withBits : Bool) : List Sexp → Option (List StreamPair × List RxEntry)
+  | [] => some ([], [])
+  | s :: rest => do
+    let (p, es) ← streamPair withBits s
+    let (ps, ess) ← streamPairs withBits rest
+    pure (p :: ps, es ++ ess)
+
+/-- `(h <l> <m>)` entries of a static regex stream. -/
+def staticRegexLefts (pat : Value) (compiles : Bool) :
+    List Sexp → Option (List Value × List RxEntry)
+  | [] => some ([], [])
+  | .list [.atom "h", l, m] :: rest => do
+    let x ← toValue l
+    let isMatch ← bit m
+    let (xs, es) ← staticRegexLefts pat compiles rest
+    match x, pat with
+    | .string h, .string p => pure (x :: xs, ⟨p, h, compiles, isMatch⟩ :: es)
+    | _, _ => pure (x :: xs, es)
+  | _ => none
+
 def handleFilter : String → List Sexp → Option String
+  | "tagged-stream", .atom op :: pairs =>
+    match plainBinOp op with
+    | some b => do
+      let (ps, _) ← streamPairs false pairs
+      pure (renderBits (taggedStreamAnswer (fun _ => none) b ps))
+    | none => do
+      let (path, b) ← regexOp op
+      if path != ArgPath.tagged then none
+      let (ps, table) ← streamPairs true pairs
+      pure (renderBits (taggedStreamAnswer (rxOfTable table) b ps))
+  | "static-stream", .atom op :: r :: rest =>
+    match plainBinOp op with
+    | some b => do
+      let y ← toValue r
+      let xs ← toValues rest
+      pure (renderBits (staticStreamAnswer (fun _ => none) b y xs))
+    | none => do
+      let (path, b) ← regexOp op
+      if path != ArgPath.static then none
+      match rest with
+      | c :: lefts => do
+        let y ← toValue r
+        let compiles ← bit c
+        let (xs, table) ← staticRegexLefts y compiles lefts
+        -- the pattern's own verdict, so that it is there for an empty / all-null stream too
+        -- (last: a real `(pattern, "")` observation, if any, is found before it)
+        let table := match y with
+          | .string p => table ++ [⟨p, [], compiles, false⟩]
+          | _ => table
+        pure (renderBits (staticStreamAnswer (rxOfTable table) b y xs))
+      | [] => none
   | "filter", [.atom op, v] => do
     let u ← unaryOp op
     let x ← toValue v
